@@ -565,10 +565,14 @@ func genSigCase(r *c.Rng) c.Case {
 	return sigCase(uri, si.Val, si.Coq, ts, secret)
 }
 
+type kv struct{ K, V string }
+
+// serveReq is the INTENT of one request: a primary value per parameter, optionally an alternate
+// value, and for each parameter where the two are put (query / body / both / duplicated).
 type serveReq struct {
 	Ep        string
 	Method    string
-	FormOK    bool
+	FormOK    bool // false: a malformed pair is appended to the query
 	ClientID  string
 	URI       string
 	SigVal    string
@@ -589,8 +593,107 @@ type serveReq struct {
 	CbUserOK    bool
 	Domains     []string
 	Scheme      string
-	InBody      bool
 	description string
+	// placement
+	Alt     map[string]string // parameter -> alternate value
+	Place   map[string]int    // parameter -> placement pattern (see placePairs); default 0
+	CType   string            // "", "urlencoded", "multipart", "json"
+	SigDesc map[string]string // sig value -> symbolic description, for alternates
+}
+
+// placement patterns: where the primary (P) and the alternate (A) value of a parameter go
+const (
+	plQ    = iota // query: P
+	plB           // body: P
+	plQB          // query: P, body: P
+	plQpBa        // query: P, body: A
+	plQaBp        // query: A, body: P
+	plQpa         // query: P, A
+	plQap         // query: A, P
+	plBpa         // body: P, A
+	plBap         // body: A, P
+	plQaBpa       // query: A, body: P, A
+	nPlace
+)
+
+func placePairs(k, prim string, alt *string, pat int) (q, b []kv) {
+	addQ := func(v string) { q = append(q, kv{k, v}) }
+	addB := func(v string) { b = append(b, kv{k, v}) }
+	if alt == nil {
+		switch pat {
+		case plB, plBpa, plBap:
+			pat = plB
+		case plQB, plQpBa, plQaBp, plQaBpa:
+			pat = plQB
+		default:
+			pat = plQ
+		}
+	}
+	if prim == "" && alt == nil {
+		return
+	}
+	switch pat {
+	case plQ:
+		addQ(prim)
+	case plB:
+		addB(prim)
+	case plQB:
+		addQ(prim)
+		addB(prim)
+	case plQpBa:
+		addQ(prim)
+		addB(*alt)
+	case plQaBp:
+		addQ(*alt)
+		addB(prim)
+	case plQpa:
+		addQ(prim)
+		addQ(*alt)
+	case plQap:
+		addQ(*alt)
+		addQ(prim)
+	case plBpa:
+		addB(prim)
+		addB(*alt)
+	case plBap:
+		addB(*alt)
+		addB(prim)
+	case plQaBpa:
+		addQ(*alt)
+		addB(prim)
+		addB(*alt)
+	}
+	return
+}
+
+func encodePairs(l []kv) string {
+	parts := make([]string, len(l))
+	for i, p := range l {
+		parts[i] = url.QueryEscape(p.K) + "=" + url.QueryEscape(p.V)
+	}
+	return strings.Join(parts, "&")
+}
+
+func pairsCoq(l []kv) string {
+	parts := make([]string, len(l))
+	for i, p := range l {
+		parts[i] = c.Pair(c.Str(p.K), c.Str(p.V))
+	}
+	return c.List(parts)
+}
+
+func valuesOf(k string, ls ...[]kv) []string {
+	var out []string
+	seen := map[string]bool{}
+	for _, l := range ls {
+		for _, p := range l {
+			if p.K == k && !seen[p.V] {
+				seen[p.V] = true
+				out = append(out, p.V)
+			}
+		}
+	}
+	return out
 }
 
 func optStr(s *string) string {
@@ -607,6 +710,41 @@ func parseString(raw string) *string {
 	}
 	s := u.String()
 	return &s
+}
+
+func queryOK(uri string) bool {
+	if u, err := url.Parse(uri); err == nil {
+		if u2, err := url.Parse(u.String()); err == nil {
+			if _, err := url.ParseQuery(u2.RawQuery); err == nil {
+				return true
+			}
+		}
+	}
+	return false
+}
+
+func stateCoq(raw string) string {
+	b, err := base64.URLEncoding.DecodeString(raw)
+	if err != nil {
+		return "StBad"
+	}
+	parts := strings.SplitN(string(b), ":", 2)
+	if len(parts) == 2 {
+		return "(StPair " + c.Str(parts[0]) + " " + c.Str(parts[1]) + ")"
+	}
+	return "StNoColon"
+}
+
+// sigDescOf names a presented sig value: the description recorded when it was built, else Go's
+// decoder result with the bytes named Mac only if they are the MAC the verifier would compute.
+func (sr *serveReq) sigDescOf(val, verifierMsg string) string {
+	if val == sr.SigVal && sr.SigCoq != "" && val != "" {
+		return sr.SigCoq
+	}
+	if d, ok := sr.SigDesc[val]; ok {
+		return d
+	}
+	return describe(val, clientSecret, verifierMsg)
 }
 
 func serve(sr serveReq) c.Case {
@@ -627,73 +765,62 @@ func serve(sr serveReq) c.Case {
 		w.tp.RedeemError = errors.New("redeem failed")
 	}
 
-	v := url.Values{}
-	path := "/" + sr.Ep
-	rawOuter, rawNested := "", ""
-	var qOuter, qNested *string
-	sigCoq := sr.SigCoq
-	if sigCoq == "" {
-		sigCoq = "SigAbsent"
-	}
-	qURI, qTS := sr.URI, sr.TS
+	// ---- the parameters of this route, primary values in a fixed order
+	var keys []kv
 	switch sr.Ep {
 	case "start":
-		v.Set("redirect_uri", sr.Outer)
-		rawOuter = sr.Outer
-		qOuter = parseString(rawOuter)
-		if a, err := url.Parse(rawOuter); err == nil {
-			rawNested = a.Query().Get("redirect_uri")
-			qNested = parseString(rawNested)
-			// what OAuthStart reads from the nested query (library oracle: URL.Query)
-			qTS = a.Query().Get("ts")
-			nsig := a.Query().Get("sig")
-			if nsig != sr.SigVal || qTS != sr.TS {
-				// the outer string was mutated: re-describe the nested signature symbolically
-				canon := canonTS(qTS)
-				msgURI := ""
-				if qNested != nil {
-					msgURI = *qNested
-				}
-				sigCoq = describe(nsig, clientSecret, msgURI+canon)
-			}
-		}
-		qURI = ""
+		keys = []kv{{"redirect_uri", sr.Outer}}
 	case "callback":
+		e := ""
 		if sr.CbError {
-			v.Set("error", "access_denied")
+			e = "access_denied"
 		}
-		if sr.CbCode != "" {
-			v.Set("code", sr.CbCode)
-		}
-		v.Set("state", sr.CbStateRaw)
+		keys = []kv{{"error", e}, {"code", sr.CbCode}, {"state", sr.CbStateRaw}}
 	default:
-		if sr.ClientID != "" {
-			v.Set("client_id", sr.ClientID)
-		}
-		if sr.URI != "" {
-			v.Set("redirect_uri", sr.URI)
-		}
-		if sr.SigVal != "" {
-			v.Set("sig", sr.SigVal)
-		}
-		if sr.TS != "" {
-			v.Set("ts", sr.TS)
-		}
-		if sr.State != "" {
-			v.Set("state", sr.State)
-		}
+		keys = []kv{{"client_id", sr.ClientID}, {"redirect_uri", sr.URI}, {"sig", sr.SigVal}, {"ts", sr.TS}, {"state", sr.State}}
 	}
-	enc := v.Encode()
+	var query, body []kv
+	for _, p := range keys {
+		var alt *string
+		if a, ok := sr.Alt[p.K]; ok {
+			alt = &a
+		}
+		q, b := placePairs(p.K, p.V, alt, sr.Place[p.K])
+		query = append(query, q...)
+		body = append(body, b...)
+	}
+	path := "/" + sr.Ep
+	encQ := encodePairs(query)
 	if !sr.FormOK {
-		enc += "&bad=%zz"
+		if encQ != "" {
+			encQ += "&"
+		}
+		encQ += "bad=%zz"
 	}
-	var req *http.Request
-	if sr.InBody && sr.Method == "POST" && sr.FormOK {
-		req = httptest.NewRequest(sr.Method, "https://"+authHost+path, strings.NewReader(enc))
-		req.Header.Set("Content-Type", "application/x-www-form-urlencoded")
-	} else {
-		req = httptest.NewRequest(sr.Method, "https://"+authHost+path+"?"+enc, nil)
+	ctHeader := map[string]string{"": "", "urlencoded": "application/x-www-form-urlencoded", "multipart": "multipart/form-data; boundary=xyz",
+		"json": "application/json", "urlencoded-charset": "application/x-www-form-urlencoded; charset=utf-8"}[sr.CType]
+	newReq := func() *http.Request {
+		var rd *strings.Reader
+		target := "https://" + authHost + path
+		if encQ != "" {
+			target += "?" + encQ
+		}
+		var req *http.Request
+		if len(body) > 0 || sr.CType != "" {
+			rd = strings.NewReader(encodePairs(body))
+			req = httptest.NewRequest(sr.Method, target, rd)
+		} else {
+			req = httptest.NewRequest(sr.Method, target, nil)
+		}
+		if ctHeader != "" {
+			req.Header.Set("Content-Type", ctHeader)
+		}
+		return req
 	}
+	// library oracle: does Request.ParseForm succeed on exactly this request?
+	formOK := newReq().ParseForm() == nil
+
+	req := newReq()
 	switch sr.Session {
 	case "good":
 		req.AddCookie(w.sessionCookie("user@allowed.test"))
@@ -727,43 +854,86 @@ func serve(sr serveReq) c.Case {
 		oLoc = &loc
 	}
 
-	// oracles
-	queryOK := false
-	if u, err := url.Parse(qURI); err == nil {
-		if u2, err := url.Parse(u.String()); err == nil {
-			if _, err := url.ParseQuery(u2.RawQuery); err == nil {
-				queryOK = true
+	// ---- decoding oracles, as tables keyed by the raw presented value
+	uris := valuesOf("redirect_uri", query, body)
+	var sigTab, stateTab, startTab, qokTab []string
+	// the message the verifier would MAC for a presented sig: any presented uri with any presented ts
+	tss := valuesOf("ts", query, body)
+	for _, sv := range valuesOf("sig", query, body) {
+		if sv == "" {
+			continue
+		}
+		desc := ""
+		if sv == sr.SigVal && sr.SigCoq != "" {
+			desc = sr.SigCoq
+		} else if d, ok := sr.SigDesc[sv]; ok {
+			desc = d
+		} else {
+			desc = describe(sv, "", "")
+			// name the bytes Mac if they are the MAC of some presented (uri, ts) under the client secret
+			for _, u := range uris {
+				for _, t := range tss {
+					if d := describe(sv, clientSecret, u+canonTS(t)); strings.Contains(d, "Mac") {
+						desc = d
+					}
+				}
 			}
 		}
+		sigTab = append(sigTab, c.Pair(c.Str(sv), desc))
 	}
-	cbState := "StBad"
-	if raw, err := base64.URLEncoding.DecodeString(sr.CbStateRaw); err == nil {
-		parts := strings.SplitN(string(raw), ":", 2)
-		if len(parts) == 2 {
-			cbState = "(StPair " + c.Str(parts[0]) + " " + c.Str(parts[1]) + ")"
-		} else {
-			cbState = "StNoColon"
+	for _, st := range valuesOf("state", query, body) {
+		stateTab = append(stateTab, c.Pair(c.Str(st), stateCoq(st)))
+	}
+	for _, u := range uris {
+		qokTab = append(qokTab, c.Pair(c.Str(u), c.Bool(queryOK(u))))
+	}
+	if sr.Ep == "start" {
+		all := uris
+		if len(valuesOf("redirect_uri", query)) == 0 {
+			all = append(all, "") // what Query().Get returns when the parameter is absent
+		}
+		for _, x := range all {
+			info := "{| si_outer := None; si_raw_nested := []; si_nested := None; si_sig := SigAbsent; si_ts := [] |}"
+			if a, err := url.Parse(x); err == nil {
+				as := a.String()
+				rawNested := a.Query().Get("redirect_uri")
+				qNested := parseString(rawNested)
+				nts := a.Query().Get("ts")
+				nsig := a.Query().Get("sig")
+				msgURI := ""
+				if qNested != nil {
+					msgURI = *qNested
+				}
+				desc := "SigAbsent"
+				if nsig != "" {
+					desc = sr.sigDescOf(nsig, msgURI+canonTS(nts))
+				}
+				info = fmt.Sprintf("{| si_outer := (Some %s); si_raw_nested := %s; si_nested := %s; si_sig := %s; si_ts := %s |}",
+					c.Str(as), c.Str(rawNested), optStr(qNested), desc, c.Str(nts))
+			}
+			startTab = append(startTab, c.Pair(c.Str(x), info))
 		}
 	}
+
 	meth := map[string]string{"GET": "GET", "POST": "POST"}[sr.Method]
 	if meth == "" {
 		meth = "MOther"
 	}
+	ctype := map[string]string{"": "CtNone", "urlencoded": "CtUrlencoded", "urlencoded-charset": "CtUrlencoded", "multipart": "CtMultipart", "json": "CtOther"}[sr.CType]
 	sess := map[string]string{"none": "SessNone", "bad": "SessBad", "good": "SessGood"}[sr.Session]
 	ep := map[string]string{"start": "EpStart", "sign_in": "EpSignIn", "sign_out": "EpSignOut", "callback": "EpCallback"}[sr.Ep]
-	q := fmt.Sprintf("{| q_meth := %s; q_form_ok := %s; q_client_id := %s; q_uri := %s; q_sig := %s; q_ts := %s; q_state := %s; "+
-		"q_session := %s; q_provider_valid := %s; q_revoke_ok := %s; q_query_ok := %s; q_outer := %s; q_nested := %s; "+
-		"q_cb_error := %s; q_cb_code_empty := %s; q_cb_redeem_ok := %s; q_cb_state := %s; q_cb_csrf := %s; q_cb_user_ok := %s |}",
-		meth, c.Bool(sr.FormOK), c.Str(sr.ClientID), c.Str(qURI), sigCoq, c.Str(qTS), c.Str(sr.State),
-		sess, c.Bool(sr.ProvValid), c.Bool(sr.RevokeOK), c.Bool(queryOK), optStr(qOuter), optStr(qNested),
-		c.Bool(sr.CbError), c.Bool(sr.CbCode == ""), c.Bool(sr.CbRedeemOK), cbState, optStr(sr.CbCSRF), c.Bool(sr.CbUserOK))
+	wire := fmt.Sprintf("{| w_meth := %s; w_form_ok := %s; w_ctype := %s; w_query := %s; w_body := %s; w_sigtab := %s; w_statetab := %s; "+
+		"w_starttab := %s; w_qoktab := %s; w_session := %s; w_provider_valid := %s; w_revoke_ok := %s; "+
+		"w_cb_redeem_ok := %s; w_cb_csrf := %s; w_cb_user_ok := %s |}",
+		meth, c.Bool(formOK), ctype, pairsCoq(query), pairsCoq(body), c.List(sigTab), c.List(stateTab),
+		c.List(startTab), c.List(qokTab), sess, c.Bool(sr.ProvValid), c.Bool(sr.RevokeOK),
+		c.Bool(sr.CbRedeemOK), optStr(sr.CbCSRF), c.Bool(sr.CbUserOK))
 	cfg := fmt.Sprintf("{| c_domains := %s; c_secret := %s; c_client_id := %s; c_scheme := %s |}",
 		c.Strs(sr.Domains), c.Str(clientSecret), c.Str(clientID), c.Str(sr.Scheme))
-	coq := fmt.Sprintf("CServe %s %s %s %s %s %s %d %s %s", cfg, c.Z(now.UnixNano()), ep, q, c.Str(rawOuter), c.Str(rawNested),
-		rec.Code, optStr(oLoc), optStr(oCarried))
-	js := map[string]interface{}{"kind": "serve", "ep": sr.Ep, "method": sr.Method, "domains": sr.Domains, "uri": sr.URI, "outer": sr.Outer,
-		"sig": sr.SigVal, "sig_sym": sigCoq, "ts": sr.TS, "state": sr.State, "session": sr.Session, "form_ok": sr.FormOK,
-		"client_id": sr.ClientID, "provider_valid": sr.ProvValid, "revoke_ok": sr.RevokeOK, "cb_state": sr.CbStateRaw,
+	coq := fmt.Sprintf("CServe %s %s %s %s %d %s %s", cfg, c.Z(now.UnixNano()), ep, wire, rec.Code, optStr(oLoc), optStr(oCarried))
+	js := map[string]interface{}{"kind": "serve", "ep": sr.Ep, "method": sr.Method, "domains": sr.Domains, "ctype": sr.CType,
+		"query": query, "body": body, "session": sr.Session, "form_ok": formOK,
+		"provider_valid": sr.ProvValid, "revoke_ok": sr.RevokeOK,
 		"status": rec.Code, "location": oLoc, "carried": oCarried, "now": now.Unix(), "note": sr.description}
 	return c.Case{Coq: coq, JSON: js}
 }
@@ -828,7 +998,6 @@ func genServe(r *c.Rng) c.Case {
 		uri, ts, si := signedTriple(r, sr.Domains)
 		sr.URI, sr.TS, sr.SigVal, sr.SigCoq = uri, ts, si.Val, si.Coq
 		sr.Method = r.Pick([]string{"GET", "POST", "POST"})
-		sr.InBody = r.Chance(0.5)
 		sr.Session = r.Pick([]string{"good", "none", "none", "bad"})
 		if r.Chance(0.15) {
 			sr.RevokeOK = false
@@ -918,7 +1087,158 @@ func genServe(r *c.Rng) c.Case {
 	if sr.Ep != "callback" && r.Chance(0.04) {
 		sr.FormOK = false
 	}
+	addPlacement(r, &sr)
 	return serve(sr)
+}
+
+func pick2(r *c.Rng, a, b int) int {
+	if r.Chance(0.5) {
+		return a
+	}
+	return b
+}
+
+func signB64(key, msg string) string { return base64.URLEncoding.EncodeToString(mac(key, msg)) }
+
+// addPlacement decides where each parameter goes (query / body / both / duplicated), gives some
+// parameters a second, disagreeing value, and picks a content type.
+func addPlacement(r *c.Rng, sr *serveReq) {
+	sr.Alt = map[string]string{}
+	sr.Place = map[string]int{}
+	sr.SigDesc = map[string]string{}
+	post := sr.Method == "POST"
+	// content type
+	switch {
+	case post:
+		sr.CType = r.Pick([]string{"urlencoded", "urlencoded", "urlencoded", "urlencoded", "urlencoded-charset", "multipart", "", "json"})
+	case r.Chance(0.25):
+		sr.CType = r.Pick([]string{"urlencoded", "multipart", "json"})
+	}
+	var keys []string
+	switch sr.Ep {
+	case "start":
+		keys = []string{"redirect_uri"}
+	case "callback":
+		keys = []string{"error", "code", "state"}
+	default:
+		keys = []string{"client_id", "redirect_uri", "sig", "ts", "state"}
+	}
+	// agreeing placements (no alternates)
+	if r.Chance(0.4) {
+		pat := plQ
+		if post && r.Chance(0.6) {
+			pat = pick2(r, plB, plQB)
+		} else if r.Chance(0.15) {
+			pat = pick2(r, plB, plQB)
+		}
+		for _, k := range keys {
+			sr.Place[k] = pat
+		}
+		if r.Chance(0.2) { // mixed: each parameter independently
+			for _, k := range keys {
+				sr.Place[k] = []int{plQ, plB, plQB}[r.Intn(3)]
+			}
+		}
+		return
+	}
+	// alternates
+	now := time.Now().Unix()
+	d := "example.com"
+	if len(sr.Domains) > 0 {
+		d = strings.TrimLeft(r.Pick(sr.Domains), ".")
+	}
+	evil := r.Pick([]string{"https://app.attacker.net/oauth2/callback", "https://attacker.net/", "https://evil" + d + "/", "//attacker.net/x"})
+	other := "https://other." + d + "/oauth2/callback"
+	switch sr.Ep {
+	case "start":
+		nv := url.Values{}
+		kind := r.Intn(4)
+		nested := goodURI(r, sr.Domains)
+		if kind == 0 {
+			nested = evil
+		}
+		ts := strconv.FormatInt(now-int64(r.Intn(100)), 10)
+		sv := signB64(clientSecret, nested+ts)
+		sr.SigDesc[sv] = describe(sv, clientSecret, nested+ts)
+		nv.Set("redirect_uri", nested)
+		nv.Set("sig", sv)
+		nv.Set("ts", ts)
+		base := "https://" + authHost
+		if kind == 1 {
+			base = "https://sso-auth.attacker.net"
+		}
+		if kind == 2 {
+			nv.Set("sig", signB64(otherSecret, nested+ts))
+		}
+		sr.Alt["redirect_uri"] = base + "/sign_in?" + nv.Encode()
+	case "callback":
+		nonce := "nonce-1234"
+		sr.Alt["state"] = base64.URLEncoding.EncodeToString([]byte(nonce + ":" + r.Pick([]string{evil, other, "https://app." + d + "/x"})))
+		if r.Chance(0.3) {
+			sr.Alt["code"] = r.Pick([]string{"", "other-code"})
+		}
+		if r.Chance(0.2) {
+			sr.Alt["error"] = r.Pick([]string{"", "access_denied"})
+		}
+	default:
+		ts := sr.TS
+		switch r.Intn(6) {
+		case 0: // out-of-domain URI riding on the primary signature
+			sr.Alt["redirect_uri"] = evil
+		case 1: // out-of-domain URI with its own valid fresh signature
+			sr.Alt["redirect_uri"] = evil
+			ts = strconv.FormatInt(now-20, 10)
+			sr.Alt["ts"] = ts
+			sv := signB64(clientSecret, evil+ts)
+			sr.Alt["sig"] = sv
+			sr.SigDesc[sv] = describe(sv, clientSecret, evil+ts)
+		case 2: // in-domain URI, unsigned
+			sr.Alt["redirect_uri"] = other
+		case 3: // a second fully valid in-domain triple
+			sr.Alt["redirect_uri"] = other
+			ts = strconv.FormatInt(now-40, 10)
+			sr.Alt["ts"] = ts
+			sv := signB64(clientSecret, other+ts)
+			sr.Alt["sig"] = sv
+			sr.SigDesc[sv] = describe(sv, clientSecret, other+ts)
+		case 4: // stale timestamp with a signature that is valid for it
+			ts = strconv.FormatInt(now-900, 10)
+			sr.Alt["ts"] = ts
+			sv := signB64(clientSecret, sr.URI+ts)
+			sr.Alt["sig"] = sv
+			sr.SigDesc[sv] = describe(sv, clientSecret, sr.URI+ts)
+		case 5: // signature under another key
+			sv := signB64(otherSecret, sr.URI+sr.TS)
+			sr.Alt["sig"] = sv
+			sr.SigDesc[sv] = describe(sv, otherSecret, sr.URI+sr.TS)
+		}
+		if r.Chance(0.25) {
+			sr.Alt["client_id"] = r.Pick([]string{"wrong", ""})
+		}
+		if r.Chance(0.25) {
+			sr.Alt["state"] = r.Pick([]string{"other-state", ""})
+		}
+	}
+	pat := plQpBa + r.Intn(nPlace-plQpBa)
+	for k := range sr.Alt {
+		sr.Place[k] = pat
+	}
+	if r.Chance(0.3) { // each parameter its own pattern
+		for _, k := range keys {
+			sr.Place[k] = r.Intn(nPlace)
+		}
+	} else if r.Chance(0.5) { // parameters without an alternate follow the side the primaries are on
+		side := plQ
+		switch pat {
+		case plQaBp, plBpa, plBap, plQaBpa:
+			side = plB
+		}
+		for _, k := range keys {
+			if _, ok := sr.Alt[k]; !ok {
+				sr.Place[k] = side
+			}
+		}
+	}
 }
 
 // ------------------------------------------------------------------ corpus
@@ -1000,6 +1320,33 @@ func corpus() []c.Case {
 		mk("sign_out", "GET", "https://evil.org:.example.com:80/", "none", 0, clientSecret),
 	} {
 		cs = append(cs, serve(sr))
+	}
+	// the same parameter in query AND body with different values, for every method the route accepts:
+	// a fresh signed in-domain link in one place, an attacker URI in the other
+	attacker := "https://www.attacker.net/landing"
+	for _, ep := range []string{"sign_out", "sign_in"} {
+		for _, method := range []string{"GET", "POST"} {
+			for _, ct := range []string{"urlencoded", "multipart", "", "json"} {
+				for _, pat := range []int{plQpBa, plQaBp, plQpa, plQap, plBpa, plBap, plQaBpa} {
+					for _, sess := range []string{"none", "good"} {
+						if ep == "sign_in" && (method == "POST" || sess == "none") {
+							continue
+						}
+						sr := mk(ep, method, good, sess, 0, clientSecret)
+						sr.CType = ct
+						sr.Alt = map[string]string{"redirect_uri": attacker}
+						sr.Place = map[string]int{"redirect_uri": pat}
+						if pat == plBpa || pat == plBap { // everything in the body
+							for _, k := range []string{"client_id", "sig", "ts", "state"} {
+								sr.Place[k] = plB
+							}
+						}
+						sr.description = "query/body disagreement"
+						cs = append(cs, serve(sr))
+					}
+				}
+			}
+		}
 	}
 	return cs
 }
